@@ -427,6 +427,7 @@ func TestC05(t *testing.T) {
 	})
 
 	c05Real(t)
+	c05ProxyEmptyPool(t)
 	c05Lab(t)
 }
 
@@ -639,6 +640,97 @@ func c05Real(t *testing.T) {
 }
 
 // c05Lab: N unpinned requests through a real listener with k UDP backends.
+// c05ProxyEmptyPool: "with no backend registered the request is dropped without
+// disturbing the proxy" - at the level where a request meets the pool: a Proxy
+// object (the product's constructors, a recording listener double) whose pool
+// is empty, filled, emptied again while requests addressed to the service are
+// handled synchronously through handleRawMessage / handleDialog / HandleMessage.
+type c05Listener struct{ proto string }
+
+func (t *c05Listener) Start(MessageHandler) error       { return nil }
+func (t *c05Listener) Send(string, int, *Message) error { return nil }
+func (t *c05Listener) GetProtocol() string              { return t.proto }
+func (t *c05Listener) GetAddress() string               { return "127.0.0.77" }
+func (t *c05Listener) GetPort() int                     { return 5060 }
+func (t *c05Listener) IsExit() bool                     { return false }
+
+func c05ProxyEmptyPool(t *testing.T) {
+	V.Require("proxy: request for the service while the pool is empty")
+	rcheck(t, "proxy-empty-pool", V.N(300, 3000), func(rt *rapid.T) {
+		p := NewProxy("svc.test", 1200, "127.0.0.77", false, NewPreConfigRoute(), NewPreConfigHostResolver(), NewSelfLearnRoute(), true, true)
+		rb := NewRoundRobinBackend()
+		udp := &c05Listener{"UDP"}
+		p.AddItem(&ProxyItem{backend: rb, transports: []ServerTransport{udp}})
+		members := map[string]*c05Double{}
+		var hist []string
+		settle := func() {
+			patientUntil(5*time.Second, 50*time.Microsecond, func() bool { return len(p.backendChangeChannel) == 0 })
+			time.Sleep(100 * time.Microsecond)
+		}
+		steps := rapid.IntRange(1, 12).Draw(rt, "steps")
+		for i := 0; i < steps; i++ {
+			switch op := rapid.IntRange(0, 4).Draw(rt, "op"); {
+			case op == 0 && len(members) < 3:
+				a := fmt.Sprintf("127.0.0.%d:5080", 81+len(members))
+				if members[a] == nil {
+					b := &c05Double{addr: a}
+					members[a] = b
+					rb.AddBackend(b)
+					settle()
+					hist = append(hist, "+"+a)
+				}
+			case op == 1 && len(members) > 0:
+				for a := range members {
+					rb.RemoveBackend(a)
+					delete(members, a)
+					settle()
+					hist = append(hist, "-"+a)
+					break
+				}
+			default:
+				method := rapid.SampledFrom([]string{"OPTIONS", "INVITE", "CANCEL", "BYE", "INFO"}).Draw(rt, "method")
+				to := "<sip:u@svc.test>"
+				if method == "BYE" || method == "INFO" {
+					to += ";tag=unknown" // belongs to no known dialog
+				}
+				wire := fmt.Sprintf("%s sip:u@svc.test SIP/2.0\r\nVia: SIP/2.0/UDP 127.0.0.9:5060;branch=z9hG4bKep%d\r\nFrom: <sip:a@b>;tag=1\r\nTo: %s\r\nCall-ID: c05-empty-%d\r\nCSeq: 1 %s\r\nContent-Length: 0\r\n\r\n", method, i, to, i, method)
+				msg, err := ParseMessage(bufio.NewReader(strings.NewReader(wire)))
+				if err != nil {
+					V.HarnessError(rt, "%v", err)
+				}
+				hist = append(hist, fmt.Sprintf("%s (pool of %d)", method, len(members)))
+				V.Case(hist)
+				before := 0
+				for _, b := range members {
+					before += int(atomic.LoadInt64(&b.recv))
+				}
+				var panicked any
+				func() {
+					defer func() { panicked = recover() }()
+					raw := NewRawMessage("127.0.0.9", 5060, udp, true, msg)
+					m2, err := p.handleRawMessage(raw)
+					if err == nil {
+						p.handleDialog(raw.PeerAddr, raw.PeerPort, m2)
+						p.HandleMessage(m2)
+					}
+				}()
+				V.ClassIf(len(members) == 0, "proxy: request for the service while the pool is empty")
+				if panicked != nil {
+					failf(rt, "history %v: handling a %s addressed to the service with %d backends registered panicked: %v (in the running proxy this is the message loop: the process dies)", hist, method, len(members), panicked)
+				}
+				after := 0
+				for _, b := range members {
+					after += int(atomic.LoadInt64(&b.recv))
+				}
+				if len(members) > 0 && after != before+1 {
+					failf(rt, "history %v: a %s addressed to the service with %d backends registered reached %d backends, want exactly one", hist, method, len(members), after-before)
+				}
+			}
+		}
+		V.NonTrivial(strings.Join(hist, "|"))
+	})
+}
+
 func c05Lab(t *testing.T) {
 	if os.Getenv("VERIF_RACE") != "" {
 		return
